@@ -205,3 +205,26 @@ MUTANTS += [
          desc='FromStr32 computes the remaining bit count in int32 again: wraps for strings of 2^28 bytes',
          edits=[('bitmap/fromstr32.go', 'rest := int64(len(s))<<3 - int64(frombit)', 'rest := int64(int32(len(s)<<3) - frombit)')]),
 ]
+MUTANTS += [
+    # ---- reverted repair of PathsOf (6d17ed3)
+    dict(name='c11-revert-pathsof-first-key-fix', props=['C11'],
+         desc='PathsOf compares the first path with the placeholder ^uint64(0) again: a first key of 32 one-bits at height 32 is dropped',
+         edits=[('bmtree/newpath.go', 'if !dedup || i == 0 || p != prev {', 'if !dedup || p != prev {'),
+                ('bmtree/newpath.go', 'for i, s := range keys {', 'for _, s := range keys {')]),
+    # ---- nil special cases ("do not allocate for a nil argument"): the EMPTY input in the form of a nil slice
+    dict(name='c02-nilguard-indexselect32r64', props=['C02'],
+         desc='IndexSelect32R64 returns (nil, nil) for a nil bitmap: the one-entry rank index is missing',
+         edits=[('bitmap/select.go', 'func IndexSelect32R64(words []uint64) ([]int32, []int32) {\n', 'func IndexSelect32R64(words []uint64) ([]int32, []int32) {\n\tif words == nil {\n\t\treturn nil, nil\n\t}\n')]),
+    dict(name='c12-nilguard-of', props=['C12'],
+         desc='Of returns nil for a nil position list, forgetting the requested size n',
+         edits=[('bitmap/of.go', 'func Of(bitPositions []int32, opts ...int32) []uint64 {\n', 'func Of(bitPositions []int32, opts ...int32) []uint64 {\n\tif bitPositions == nil {\n\t\treturn nil\n\t}\n')]),
+    dict(name='c12-nilguard-extend', props=['C12'],
+         desc='Builder.Extend returns at once for a nil position list, without advancing Offset by size',
+         edits=[('bitmap/builder.go', 'func (b *Builder) Extend(bitPositions []int32, size int32) {\n', 'func (b *Builder) Extend(bitPositions []int32, size int32) {\n\tif bitPositions == nil {\n\t\treturn\n\t}\n')]),
+    dict(name='c18-nilguard-write', props=['C18'],
+         desc='Write(nil) returns (0, nil) even when the cursor is at or beyond the section end',
+         edits=[('iohelper/iohelper.go', 'func (s *SectionWriter) Write(p []byte) (n int, err error) {\n', 'func (s *SectionWriter) Write(p []byte) (n int, err error) {\n\tif p == nil {\n\t\treturn 0, nil\n\t}\n')]),
+    dict(name='c18-nilguard-writeat', props=['C18'],
+         desc='WriteAt(nil, off) returns (0, nil) even when off lies outside the section',
+         edits=[('iohelper/iohelper.go', 'func (s *SectionWriter) WriteAt(p []byte, off int64) (n int, err error) {\n', 'func (s *SectionWriter) WriteAt(p []byte, off int64) (n int, err error) {\n\tif p == nil {\n\t\treturn 0, nil\n\t}\n')]),
+]
